@@ -82,6 +82,21 @@ pub fn suts() -> Vec<Sut> {
               expect: &[("invalid-segment", 0, 0)], makes_node: true },
         Sut { name: "stray-paren", text: "( t0", before: &[], after: EXIT,
               expect: &[("parse-unexpected-token", 0, 0)], makes_node: false },
+        // a character literal that is not closed ends with its character, whatever follows it
+        Sut { name: "unclosed-char", text: "li t1, 'a", before: &[], after: EXIT,
+              expect: &[("parse-invalid-string", 2, 2)], makes_node: false },
+        Sut { name: "unclosed-char-in-list", text: ".byte 'a, 1", before: &[".data"], after: &[".text", "li a7, 10", "ecall"],
+              expect: &[("parse-invalid-string", 1, 1)], makes_node: false },
+        // a macro region that is never closed: the error names the directive, not the rest of the file
+        Sut { name: "unclosed-macro", text: ".macro inc", before: &["li a7, 10", "ecall"], after: &["addi t0, t0, 1", "addi t1, t1, 1"],
+              expect: &[("parse-incomplete-statement", 0, 0)], makes_node: false },
+        // the return address a call writes without naming it: the message is about the instruction
+        Sut { name: "jal-overwrites-ra", text: "jal g", before: &["jal f", "li a7, 10", "ecall", "f:"], after: &["ret", "g:", "ret"],
+              expect: &[("overwrite-callee-saved-register", 0, 1)], makes_node: true },
+        Sut { name: "call-overwrites-ra", text: "call g", before: &["jal f", "li a7, 10", "ecall", "f:"], after: &["ret", "g:", "ret"],
+              expect: &[("overwrite-callee-saved-register", 0, 1)], makes_node: true },
+        Sut { name: "jal-ra-overwrites-ra", text: "jal ra, g", before: &["jal f", "li a7, 10", "ecall", "f:"], after: &["ret", "g:", "ret"],
+              expect: &[("overwrite-callee-saved-register", 1, 1)], makes_node: true },
     ]
 }
 
